@@ -262,8 +262,7 @@ let run_parse args = match args with
 let run_score args = match args with
   | [A "try"; v] -> with_panic (fun emit -> emit (match score_try_from (num v) with Some x -> L [A "ok"; an x] | None -> A "err"))
   | [A "str"; s] -> with_panic (fun emit ->
-      emit (match p_score [bytes_of_hex (atom s)] with
-            | POk ((Some v, _)) -> L [A "ok"; an v] | POk ((None, _)) -> L [A "ok"; A "none"] | PErr _ -> A "err" | PPanic -> A "panic"))
+      emit (match score_from_str (bytes_of_hex (atom s)) with Some v -> L [A "ok"; an v] | None -> A "err"))
   | _ -> raise (Bad "score args")
 let lf = n_of_int 10 and cr = n_of_int 13
 let rec drop_last = function [] -> [] | [_] -> [] | x :: t -> x :: drop_last t
